@@ -28,7 +28,7 @@ def norm_ty(t):
     return t
 
 
-def variant_arms(g, file):
+def variant_arms(g, file, prefix="parser"):
     """match arms in `file` whose pattern is a parser-model variant and whose body refuses or panics:
     -> list of (enum, variant, action, fn name, line) with action in {'panic', 'reject'}"""
     out = []
@@ -56,7 +56,7 @@ def variant_arms(g, file):
                         segs = None
                         if p["k"] in ("tuplestruct", "path", "struct"):
                             segs = p["path"]["segs"]
-                        if segs and len(segs) >= 3 and segs[0] == "parser":
+                        if segs and len(segs) >= 3 and segs[0] == prefix:
                             act = classify(arm["body"])
                             if act:
                                 out.append((segs[-2], segs[-1], act, fname, arm.get("line")))
@@ -71,10 +71,10 @@ def variant_arms(g, file):
     return out
 
 
-def variant_sites(g, enum, variant):
-    """grammar sites map(P, F) of parser/src/lib.rs whose F builds model::<enum>::<variant>"""
-    f = GRAMMAR_FILES[0]
-    model_f = GRAMMAR_FILES[1]
+def variant_sites(g, enum, variant, f=None, model_f=None):
+    """grammar sites map(P, F) of the grammar file whose F builds model::<enum>::<variant>"""
+    f = f or GRAMMAR_FILES[0]
+    model_f = model_f or GRAMMAR_FILES[1]
     sites = []
 
     def ctor_variant(fnname, arg_ty):
@@ -124,13 +124,19 @@ def variant_sites(g, enum, variant):
             # output type of the mapped parser, when it is a production
             kid = n.kids[0]
             arg_ty = None
+            try:
+                kid = g.locate(kid, [])
+            except nomsem.Unsupported:
+                pass
             if kid.kind == "ref":
                 fn = g.dump.fns.get((kid.arg[0], kid.arg[1]))
                 ret = norm_ty(fn["ret"]) if fn else ""
                 if ret.startswith("IResult<&str,") and ret.endswith(">"):
                     arg_ty = ret[len("IResult<&str,"):-1]
-            elif kid.kind in ("class0", "class1", "tag", "recognize"):
+            elif kid.kind in ("class0", "class1", "tag", "recognize", "take_until", "take_except"):
                 arg_ty = "&str"
+            if arg_ty is None and segs[-1] == "from":
+                raise nomsem.Unsupported("cannot type the argument of %s at %s" % ("::".join(segs), n.src))
             for vs in ctor_variant(segs[-1], arg_ty):
                 if vs == {variant}:
                     sites.append(n)
